@@ -3,7 +3,7 @@ from lv import core, model, gen, drive, xform, ref
 from lv.props import common
 
 ID = 'C11'
-BUDGET = {'quick': 260, 'thorough': 9000}
+BUDGET = {'quick': 400, 'thorough': 9000}
 RULE = ('programs from the typed generator (core + aggregation + negation + implication '
         'profile) are printed twice from one AST, the second print differing in exactly '
         'one sugar class (S1 positional/colN, S2 `a:`/`a: a`, S3 F(x)=v / logica_value '
